@@ -89,11 +89,109 @@ def run_intro(c):
     return r
 
 
+_zoo = {}
+
+
+def run_zoo(c):
+    """annotation zoo x value zoo: only the class of the outcome is observed"""
+    import zoo
+    from pedantic import assert_value_matches_type
+    if not _zoo:
+        _zoo['a'] = zoo.annotations()
+        _zoo['v'] = zoo.values
+    name, ann = _zoo['a'][c['ai']]
+    vals = _zoo['v']()          # fresh values per case (iterators / generators are one-shot)
+    val = vals[c['vi']]
+    r = {'name': name, 'val': type(val).__name__}
+    if c['obs'] == 'zoo':
+        r['out'], r['exc'] = outcome(lambda: assert_value_matches_type(value=val, type_=ann, err='', type_vars={}, context={}))
+    else:
+        journal = []
+        src = ('from pedantic import pedantic\n@pedantic\ndef f(x: ANN) -> RET:\n    J.append(1)\n    return RV\n')
+        try:
+            mod = make_module(src, dict(ANN=ann, RET=(ann if c['obs'] == 'zoo_ret' else None), J=journal,
+                                        RV=(val if c['obs'] == 'zoo_ret' else None)))
+        except BaseException as ex:
+            r['out'], r['exc'] = 9, 'decoration failed: ' + repr(ex)[:100]
+            return r
+        arg = None if c['obs'] == 'zoo_ret' else val
+        if c['obs'] == 'zoo_ret':
+            mod.f.__annotations__  # noqa
+        r['out'], r['exc'] = outcome(lambda: mod.f(x=arg))
+        r['body_ran'] = len(journal)
+    return r
+
+
+def run_missing(c):
+    """a generated function with one missing / bare annotation, called by keyword with conforming arguments"""
+    ctx = U.real_ctx(c['ctx'])
+    ns = dict(ctx)
+    journal = []
+    ns['J'] = journal
+    parts, kwargs = [], {}
+    n = len(c['params'])
+    for i, p in enumerate(c['params']):
+        s = f'p{i}'
+        if i == c['miss']:
+            if c['bare']:
+                ns[f'A{i}'] = getattr(__import__('typing'), c['bare']) if c['bare'][0].isupper() else __builtins__[c['bare']] if isinstance(__builtins__, dict) else getattr(__builtins__, c['bare'])
+                s += f': A{i}'
+        else:
+            ns[f'A{i}'] = U.render_ann(p['ann'])
+            s += f': A{i}'
+        val = U.render_val(p['val'])
+        if p['default']:
+            ns[f'D{i}'] = val
+            s += f' = D{i}'
+        parts.append(s)
+        kwargs[f'p{i}'] = val
+    ret = ' -> None'
+    if c['miss'] == n:
+        ret = ''
+        if c['bare']:
+            ns['R'] = getattr(__import__('typing'), c['bare']) if c['bare'][0].isupper() else (__builtins__[c['bare']] if isinstance(__builtins__, dict) else getattr(__builtins__, c['bare']))
+            ret = ' -> R'
+    ns['RV'] = U.render_val(c['ret_val']) if c['miss'] == n else None
+    sig = ', '.join(parts)
+    if c['kind'] == 'method':
+        src = (f'from pedantic import pedantic\nclass K:\n    @pedantic\n    def f(self, {sig}){ret}:\n        J.append(1)\n        return RV\n')
+    else:
+        src = (f'from pedantic import pedantic\n@pedantic\n{"async " if c["kind"] == "async" else ""}def f({sig}){ret}:\n    J.append(1)\n    return RV\n')
+    r = {}
+    try:
+        mod = make_module(src, ns)
+    except BaseException as ex:
+        r['out'], r['exc'] = 9, 'decoration failed: ' + repr(ex)[:100]
+        return r
+    if c['kind'] == 'method':
+        call = lambda: mod.K().f(**kwargs)
+    elif c['kind'] == 'async':
+        import asyncio
+        call = lambda: asyncio.run(mod.f(**kwargs))
+    else:
+        call = lambda: mod.f(**kwargs)
+    r['out'], r['exc'] = outcome(call)
+    r['body_ran'] = len(journal)
+    return r
+
+
+def zoo_sizes():
+    import zoo
+    return len(zoo.annotations()), len(zoo.values())
+
+
 def main():
     cases = json.load(sys.stdin)
     for c in cases:
         try:
-            r = run_intro(c) if c.get('obs') == 'intro' else run_case(c)
+            if c.get('obs') == 'zoo_sizes':
+                r = {'sizes': zoo_sizes()}
+            elif c.get('obs') == 'missing':
+                r = run_missing(c)
+            elif c.get('obs', '').startswith('zoo'):
+                r = run_zoo(c)
+            else:
+                r = run_intro(c) if c.get('obs') == 'intro' else run_case(c)
         except BaseException as ex:
             r = {'error': type(ex).__name__ + ': ' + str(ex)[:200]}
         print(json.dumps(r), flush=True)
